@@ -23,7 +23,7 @@ def run(chk):
     over = {'corrlag': 10}
     p = dict(zoo.PARAMS)
     p.update(over)
-    confs = [(30, 32, 2), (30, 33, 2), (30, 45, 3)] if quick else [(30, 32, 2), (30, 33, 2), (30, 45, 3), (25, 25, 4), (40, 64, 2), (31, 31, 3), (16, 24, 5)]
+    confs = [(30, 32, 2), (30, 33, 2), (30, 45, 3), (24, 24, 3)] if quick else [(30, 32, 2), (30, 33, 2), (30, 45, 3), (25, 25, 4), (40, 64, 2), (31, 31, 3), (16, 24, 5)]
     for N, nfft, c in confs:
         for dt in ('real', 'complex'):
             for kind in (['tones'] if quick else ['noise', 'tones', 'arma']):
